@@ -639,6 +639,12 @@ def traffic_case(ctx, pattern, rng, compression=None, comp_cases=None):
             if rb < 10 ** 8 and n >= rb and nk < 1 and pattern == "receive-heavy":
                 ctx.fail("threshold-crossed-without-rekey:" + pattern, case, "%d bytes received, REKEY_BYTES=%d" % (n, rb))
         if tc.is_active() and ts.is_active():
+            # the probe asks whether the session goes on AFTER the re-exchanges.  With a threshold of a few dozen
+            # packets its own traffic could start yet another exchange underneath the probe's global request, and a
+            # request crossing a re-exchange is C11's subject (where the reply-inside-the-exchange defect is listed):
+            # lift the thresholds of both ends first (nothing is in flight: settled() held just above)
+            for t in (tc, ts):
+                t.packetizer.REKEY_PACKETS = t.packetizer.REKEY_BYTES = 2 ** 40
             services_after_rekey(ctx, tc, ts, case, "%d threshold re-exchanges (%s)" % (nk, pattern))
         if comp_cases is not None:
             for name, t in (("client", tc), ("server", ts)):
